@@ -691,6 +691,7 @@ STARTS = {
     "S5": (((b'"q"', "P"), (b"a b", "X")), [b'"q"', b"a b"]),
     "S6": (((b"a", "X"), (b"d/e/z", "P")), [b"d/e/z", b"d/e"]),
     "S7": (((b"a", "X"),), [b"a", b"n/u"]),
+    "S8": (((b"a", "P"), (b"b", "X")), [b"a", b"b"]),
 }
 
 
